@@ -140,4 +140,7 @@ def run(repo, tier) -> Result:
     check_append_order("C14", res, repo)
     res.universe = {"max_helper_depth": need}
     res.rule("R-PURGE", floor=10)
+    from ..framework_rules import check_registry_writers
+
+    check_registry_writers("C14", res, repo)
     return res
